@@ -730,6 +730,47 @@ def gen_det_spec(rng: random.Random, *, delays: bool = False) -> dict:
     return {"steps": steps, "externals": [], "det_uids": True}
 
 
+def gen_det_join_spec(rng: random.Random, *, delays: bool = False) -> dict:
+    """deterministic fan-out / join workflows whose JOIN step collects events it builds itself: the start step fans k parts to a
+    worker step (1..3 workers, optional retries) that marks the store and forwards them; the single-worker join step accepts the
+    forwarded type only, normalises every input into a derived event of ANOTHER type (one type, or Left/Right chosen by the part's
+    k) and hands that to ctx.collect_events -- so its buffer holds events of types the step itself does not accept (some specs
+    mix in the accepted type: even parts become a derived event of the accepted type).  Named or default buffer.  Result = the sorted uids of the
+    collected events (derived from the parents' uids: independent of the schedule)."""
+    k = rng.randint(2, 4)
+    nfail = rng.choice([0, 0, 1, 2])
+    budget = nfail + rng.randint(1, 2)
+    wait = rng.choice([2, 5]) if delays else 0
+    pol = {"kind": "attempts", "n": budget, "wait": wait} if (nfail or rng.random() < 0.3) else None
+    start = {"name": "s00", "accepts": [0], "nw": 1, "retry": None,
+             "script": ([["gate"]] if rng.random() < 0.3 else []) + [["send", 5, None, i] for i in range(k)] + [["ret", "none"]]}
+    wscript: list = []
+    if rng.random() < 0.8:
+        wscript.append(["gate"])
+    wscript.append(["store_mark"])
+    if nfail:
+        wscript.append(["fail_until", nfail, rng.randint(1, 9)])
+    if rng.random() < 0.4:
+        wscript.append(["gate"])
+    wscript.append(["ret", "6"])  # forwards the part with its k
+    worker = {"name": "s02", "accepts": [5], "nw": rng.randint(1, 3), "retry": pol, "script": wscript}
+    shape = rng.choice(["one", "one", "sides", "sides", "mixed"])
+    if shape == "one":
+        tys = [rng.choice([7, 8, 12])]  # 12: a subclass of the type the worker accepts
+    elif shape == "sides":
+        tys = rng.sample([7, 8, 9], 2)
+    else:
+        tys = [6, rng.choice([7, 8])]  # even parts: a derived event of the accepted type, odd parts: another type
+    expected = [tys[i % len(tys)] for i in range(k)]
+    buf = rng.choice([None, None, "b01"])
+    coll = {"name": "s04", "accepts": [6], "nw": 1, "retry": None,
+            "script": ([["gate"]] if rng.random() < 0.3 else []) +
+                      [["collect", expected, buf, 1, None, [tys if len(tys) > 1 else tys[0], "own"]], ["store_set", "done", 1], ["ret", "stop", "collected"]]}
+    steps = [start, worker, coll]
+    rng.shuffle(steps)
+    return {"steps": steps, "externals": [], "det_uids": True}
+
+
 def gen_retry_race_spec(rng: random.Random) -> dict:
     """an external action (cancel) arriving in the instant an attempt of a retried step fails.
 
